@@ -16,6 +16,7 @@ package PVM
 
 import (
 	"fmt"
+	"math/bits"
 	"os"
 	"runtime"
 	"runtime/debug"
@@ -933,6 +934,61 @@ func TestVerif_C03(t *testing.T) {
 			run(c03Case{Fam: "boot", Seed: "boot", Pos: pos, Val: v, Level: -1})
 		}
 	}
+	// (ii-c) jump-table headers whose |j|*z wraps uint64: DeBlobProgramCode multiplies in 64 bits, so a
+	// blob can declare an astronomically large table and supply only (|j|*z mod 2^64) bytes of it. The
+	// code executes a dynamic jump (jump_ind and load_imm_jump_ind) with a chosen register value.
+	for _, z := range []uint64{2, 3, 5, 6, 7, 8, 9, 255} {
+		q := ^uint64(0)/z + 1 // ceil(2^64/z) for z not a power of two; 2^64/z otherwise
+		js := []uint64{q, q + 1, q + 2, q - 1, 1 << 63, 1<<63 + 1, ^uint64(0), ^uint64(0) - 1}
+		for k := uint64(1); k <= 8; k++ { // floor((2^64+k)/z)
+			quo, _ := bits.Div64(1, k, z) // (2^64 + k) / z
+			js = append(js, quo)
+		}
+		seenJ := map[uint64]bool{}
+		for _, j := range js {
+			if seenJ[j] {
+				continue
+			}
+			seenJ[j] = true
+			need := j * z // wrapped product = what deblob asks for
+			supplies := []uint64{need}
+			if need > 4096 {
+				supplies = []uint64{0, 9}
+			}
+			for _, sup := range supplies {
+				for _, rv := range []uint32{2, 4, 0x100000, uint32(2 * j), 1<<32 - 2} {
+					for form := 0; form < 2; form++ {
+						a := &c03Asm{}
+						if form == 0 {
+							a.ins(append([]byte{51, 2}, c03Imm32(rv)...)...) // load_imm r2, rv
+							a.ins(50, 2)                                     // jump_ind r2
+						} else {
+							a.ins(append([]byte{51, 3}, c03Imm32(rv)...)...) // load_imm r3, rv
+							a.ins(180, 0x32, 1, 7)                           // load_imm_jump_ind r2 = 7, jump r3 + 0
+						}
+						trapAt := len(a.code)
+						a.ins(0).ins(1).ins(0)
+						mask := make([]byte, (len(a.code)+7)/8)
+						for _, st := range a.starts {
+							mask[st/8] |= 1 << (uint(st) % 8)
+						}
+						b := append([]byte(nil), c03Nat(j)...)
+						b = append(b, byte(z))
+						b = append(b, c03Nat(uint64(len(a.code)))...)
+						tbl := make([]byte, sup)
+						for e := uint64(0); e+z <= sup; e += z {
+							tbl[e] = byte(trapAt + 1) // every complete entry points at the fallthrough after the trap
+						}
+						b = append(b, tbl...)
+						b = append(b, a.code...)
+						b = append(b, mask...)
+						run(c03Case{Fam: "jt-wrap", Kind: "inner", Hex: vlib.Hex(b), Level: 0})
+					}
+				}
+			}
+		}
+	}
+
 	// allocation amplification through sbrk (one gas unit per call)
 	szs := []uint64{1 << 12, 1 << 20, 1 << 26, 1 << 27}
 	if th {
